@@ -68,10 +68,13 @@ func genC09(r *h.Rng, tier string, idx int) *h.Plan {
 		p.Ops = append(p.Ops, h.Op{K: "addfact", Loc: l, Id: "f0", J: map[string]interface{}{"touch": l}})
 	}
 	loopy := r.P(1, 6) // some runs try self and indirect loops (error clause)
+	// some runs let an ancestor be reachable along two paths: everything that
+	// such an ancestor does not itself contribute to stays judged
+	diamonds := !loopy && r.P(1, 4)
 	steps := r.Range(8, 24)
 	for i := 0; i < steps; i++ {
 		l := r.Pick(locs)
-		switch r.Weighted([]int{6, 2, 4, 1, 5, 1}) {
+		switch r.Weighted([]int{6, 2, 4, 1, 5, 1, 3}) {
 		case 0:
 			f := map[string]interface{}{"at": l, "n": r.Pick([]string{"x", "y", "z"}), "v": float64(r.Range(0, 2))}
 			p.Ops = append(p.Ops, h.Op{K: "addfact", Loc: l, Id: r.Pick(factIds), J: f})
@@ -106,7 +109,7 @@ func genC09(r *h.Rng, tier string, idx int) *h.Plan {
 					trial[k] = v
 				}
 				trial[l] = ps
-				if noDiamond(trial) {
+				if diamonds || noDiamond(trial) {
 					break
 				}
 				ps = nil
@@ -115,6 +118,11 @@ func genC09(r *h.Rng, tier string, idx int) *h.Plan {
 			p.Ops = append(p.Ops, h.Op{K: "setparents", Loc: l, L: ps})
 		case 5:
 			p.Ops = append(p.Ops, h.Op{K: "enable", Loc: l, Id: "r" + r.Pick(locs), B: r.Bool()})
+		case 6:
+			// a condition query: the third path (besides inherited search and
+			// dispatch) on which a location sees its parents' facts
+			p.Ops = append(p.Ops, h.Op{K: "query", Loc: l, J: r.PickAny([]interface{}{
+				map[string]interface{}{"at": "?at", "n": "?n"}, map[string]interface{}{"n": "x"}, map[string]interface{}{"touch": "?l"}})})
 		}
 	}
 	p.Cfg["patterns"] = []interface{}{
